@@ -457,6 +457,8 @@ SAMPLE_POOL = {
 
 def samples_of(dom, rng, depth=0):
     """ finite list of native values of a domain """
+    if dom is OMITTED:
+        return [OMITTED]
     if dom.has_const:
         return [dom.const]
     if 'prod' in dom.kinds:
